@@ -116,7 +116,7 @@ def denseSrc (n : Nat) : ATree → Fib Int (List (Nat × ATree))
   | _ => []
 
 /-- the single operand iterated at `v` is a format-"U" leaf fiber -/
-def uLoop (v : String) (parts : List Operand) : Option (Nat × ATree) :=
+def uLeafLoop (v : String) (parts : List Operand) : Option (Nat × ATree) :=
   match parts with
   | [o] => if o.ranks == [v] then o.uShape.map (fun n => (n, o.t)) else none
   | _ => none
@@ -145,7 +145,7 @@ def runK (declared : Bool) : List String → List String → ATree → List Oper
       | _ => (zt, [])
     else
       let lazy := decide (parts.length ≥ 2)
-      let u := uLoop v parts
+      let u := uLeafLoop v parts
       let src' := match u with | some (n, t) => denseSrc n t | none => src
       let r := src'.zipIdx.foldl (fun (acc : ATree × List KEv) y =>
         let s := runK declared rest zr acc.1 (descend v ops y.1.2)
